@@ -119,6 +119,20 @@ def interval_mutant(rng, text):
 NUM_RE = re.compile(r"(?<![\w.])(\d+)\.0(?![\w.])")
 
 
+def dotted_variant(rng, text):
+    """An identifier with a field: `a.real` / `a.imag` are numbers again (accepted), `a.numerator`, `a.conjugate`, `a..real`,
+    `zz.real` (undeclared head) are clean rejections, `a.` is `a`; in an expression or as the name of the assertion."""
+    tail = rng.choice([".real", ".imag", ".real.imag", ".", ".numerator", ".conjugate", ".value", "..real", ".real.", ".__class__"])
+    if rng.random() < 0.4 and text.startswith("out = "):
+        head = rng.choice(["out", "a", "zz", "b"])
+        return head + tail + text[3:], "dotted:name" + tail
+    ms = list(re.finditer(r"(?<![\w.])([abc]|zz)(?![\w.])", text))
+    if not ms:
+        return None
+    m = rng.choice(ms)
+    return text[:m.end()] + tail + text[m.end():], "dotted:expr" + tail
+
+
 def literal_variant(rng, text):
     """Respell one numeric literal of the text in another notation of the lexer grammar (IntegerLiteral: decimal / 0x / 0X /
     0b / 0B with '_' separators; RealLiteral: digits '.' digits? exponent?, '.' digits, digits exponent), value preserved -
@@ -151,6 +165,10 @@ def explore(ctx, rng, count):
         im = interval_mutant(rng, text)
         if im is not None:
             items.append((im[0], consts, "mutant:" + im[1]))
+        if rng.random() < 0.4:
+            dv = dotted_variant(rng, text)
+            if dv is not None:
+                items.append((dv[0], consts, "mutant:" + dv[1]))
         for _k in range(2):
             mt, kind = FR.mutate(rng, text)
             items.append((mt, consts, "mutant:" + kind))
